@@ -248,10 +248,23 @@ func run(ci any, r *mon.Rec) {
 					continue
 				}
 				for rep := 0; rep < c.N; rep++ {
-					for style := 0; style < 5; style++ {
+					for style := 0; style < 6; style++ {
 						fr := make([]byte, n)
 						copy(fr, h)
-						if style == 4 {
+						if style == 5 {
+							// a complete valid request of this function followed by padding, the header covering all of it
+							if !specref.Supported(uint8(c.FC)) {
+								continue
+							}
+							base := libx.LegalReq(rng, uint8(c.FC), []float64{0, 0.5}[rng.Intn(2)]).Encode(specref.TCP)
+							if len(base) >= n {
+								continue
+							}
+							copy(fr[8:], base[8:])
+							if rng.Intn(2) == 0 {
+								fill(rng, fr[len(base):], 2)
+							}
+						} else if style == 4 {
 							// a valid request of this function cut down to n bytes, header kept consistent: internally
 							// plausible fields (quantities, byte counts that agree with each other) in a frame that is too short
 							if !specref.Supported(uint8(c.FC)) {
@@ -280,6 +293,10 @@ func run(ci any, r *mon.Rec) {
 							continue
 						}
 						ep, isEP := perr.(*packet.ErrorParseTCP) // the server type-asserts exactly like this
+						if isEP && ep == nil {
+							r.Violate(c, "dispatcher-error-not-exception", mon.Attrs{"fc": c.FC, "type": "nil *ErrorParseTCP inside a non-nil error"}, fmt.Sprintf("n=%d frame % x: neither a request nor an exception", n, fr[:min(n, 24)]))
+							continue
+						}
 						if !isEP {
 							r.Violate(c, "dispatcher-error-not-exception", mon.Attrs{"fc": c.FC, "type": fmt.Sprintf("%T", perr)}, fmt.Sprintf("n=%d header % x: %v", n, h, perr))
 							continue
